@@ -309,8 +309,9 @@ def main():
         rep.merge(res)
     run_literals(rep)
     rep.assumptions = ["reference R1 (lib/exprgen.py) is an independent transcription of the UPPAAL operator table",
-                       "inline-if as left operand of an assignment and assignment/quantifier operands are rendered with "
-                       "explicit parentheses (mixfix corner where the table alone does not fix the reading)",
+                       "?: and the assignment family are one right-associative group (C++ reading): an assignment as the else "
+                       "operand needs no parentheses, an inline-if as the left operand of an assignment does; quantifier operands "
+                       "are rendered with explicit parentheses",
                        "float reference = Python float() (correctly rounded)"]
     sys.exit(rep.finish())
 
